@@ -408,6 +408,20 @@ def should_rerun_table(ctx: Ctx, rule: str) -> None:
             if d != "[]":
                 defaults_ok = False
     defaults_ok = defaults_ok and len(detail) >= 4
+    # which default belongs to which mode: the narrow default under `replay`, the full universe otherwise
+    sel = [i for i in fn.node.body if isinstance(i, ast.If) and any(isinstance(x, ast.Assign) and ast.unparse(x.targets[0]) == "rerun_status" for x in i.body)]
+    if len(sel) == 1:
+        i0 = sel[0]
+        rep = norm.formula(ast.parse("self.params.get('replay')", mode="eval").body)
+        pos_is_replay = norm.equivalent(norm.formula(i0.test), rep)
+        neg_is_replay = norm.equivalent(norm.formula(i0.test), norm.neg(rep))
+        rb, nb = (i0.body, i0.orelse) if pos_is_replay else ((i0.orelse, i0.body) if neg_is_replay else (None, None))
+        if rb is None or [ast.unparse(x.value) for x in rb if isinstance(x, ast.Assign)] != ["self.params.get_list('rerun_status', 'fail,error,warn', delimiter=',')"] \
+                or [ast.unparse(x.value) for x in nb if isinstance(x, ast.Assign)] != ["self.params.get_list('rerun_status', []) or all_statuses"]:
+            defaults_ok = False
+            detail.append(("rerun_status selection", ast.unparse(i0.test)))
+    else:
+        defaults_ok = False
     ctx.record(rule + "d", "CONST", fref, "defaults: max_tries 2 if replay else 1; rerun_status 'fail,error,warn' if replay else all; stop_status none",
                defaults_ok, {"found": detail}, "" if defaults_ok else f"retry defaults changed: {detail}")
 
